@@ -24,6 +24,14 @@ type allOfConstraintCompiler struct {
 
 // CompileAllOf compile "allOf" rules in root schema, and in all types.
 // Adds the necessary properties to objects, removes "allOf" rule.
+//
+// The nodes of the root schema and of its types may be in use by other root
+// schemas (a schema can be added as a type to any number of schemas), and what
+// an object inherits depends on the types of the root schema being compiled.
+// That's why the objects with the "allOf" rule are not changed: the root schema
+// gets a root node and types in which these objects (and the nodes on the way
+// to them) are replaced with copies, see schema.PrivateCopyForAllOf. The table
+// of types of the root schema has to be its own one.
 func CompileAllOf(rootSchema *schema.Schema) {
 	c := allOfConstraintCompiler{
 		rootSchema:      rootSchema,
@@ -32,6 +40,11 @@ func CompileAllOf(rootSchema *schema.Schema) {
 		foundTypes:      make(map[string]schema.Type),
 	}
 
+	if node := rootSchema.RootNode(); node != nil {
+		if cp, ok := schema.PrivateCopyForAllOf(node); ok {
+			rootSchema.SetRootNode(cp)
+		}
+	}
 	c.processSchema(rootSchema)
 
 	// In case allow is used only in types (not in the root schema).
@@ -149,6 +162,13 @@ func (c *allOfConstraintCompiler) processType(name string) *schema.Schema {
 
 	if _, ok := c.compiledTypes[name]; ok {
 		return typ
+	}
+
+	if node := typ.RootNode(); node != nil {
+		if cp, ok := schema.PrivateCopyForAllOf(node); ok {
+			typ = typ.WithRootNode(cp)
+			c.rootSchema.ReplaceTypeSchema(name, typ)
+		}
 	}
 
 	c.processingTypes[name] = struct{}{}
